@@ -44,7 +44,7 @@ impl<T: Transport, E: UtpEnvironment> DispatcherDriver<T, E> {
             .d
             .socket
             .control_requests
-            .send(ControlRequest::Shutdown((addr, conn_id.into())));
+            .send(ControlRequest::Shutdown((addr, conn_id.into()), None));
     }
 
     /// (pending control requests, acceptors waiting in the channel, an acceptor is cached)
